@@ -14,6 +14,7 @@ import (
 	"path/filepath"
 	"sort"
 	"strings"
+	"syscall"
 
 	"verifharness/lib"
 
@@ -24,7 +25,7 @@ import (
 // trees
 
 type node struct {
-	Kind    byte // 'f' file, 'l' symlink, 'd' directory
+	Kind    byte // 'f' file, 'l' symlink, 'd' directory, 'x' an entry that cannot be opened (a socket; follow-up 2 only)
 	Content string
 	Target  string
 	Names   []string // sorted (byte order)
@@ -90,6 +91,8 @@ func (n *node) js() any {
 		return map[string]any{"file": n.Content}
 	case 'l':
 		return map[string]any{"link": n.Target}
+	case 'x':
+		return map[string]any{"bad": true}
 	}
 	m := map[string]any{}
 	for k, v := range n.Kids {
@@ -104,6 +107,9 @@ func fromJS(v any) *node {
 	}
 	if t, ok := m["link"]; ok {
 		return link(t.(string))
+	}
+	if _, ok := m["bad"]; ok {
+		return bad()
 	}
 	d := dir()
 	for k, x := range m["dir"].(map[string]any) {
@@ -139,6 +145,8 @@ func materialise(path string, n *node) {
 		err = os.WriteFile(path, []byte(n.Content), 0o644)
 	case 'l':
 		err = os.Symlink(n.Target, path)
+	case 'x':
+		err = syscall.Mknod(path, syscall.S_IFSOCK|0o644, 0) // os.Open on it fails with ENXIO, also for root
 	case 'd':
 		err = os.Mkdir(path, 0o755)
 		// creation order deliberately not sorted: the walk has to do the sorting
@@ -518,7 +526,7 @@ func pairJS(a, b *node) map[string]any { return map[string]any{"a": a.js(), "b":
 
 func main() {
 	lib.Main("C09", func(c *lib.Ctx) {
-		c.Model("From PlzV Require Import Model.C09.", "C09.case", "C09.check")
+		c.Model("From PlzV Require Import Model.C09 Model.C09_Rec.", "C09_Rec.case", "C09_Rec.check")
 		c.Rule("every tree is created on disk under a scratch repo root and hashed by a fresh fs.NewPathHasher(root,false,recorder,\"sha1\") " +
 			"whose hash.Hash records the bytes written (digest checked = sha1 of them); the model must reproduce the bytes exactly. " +
 			"Exhaustive: all trees with <= N nodes over names {a,b}, contents {\"\",x,xy}, link targets {a,b}; random: trees of depth <= 3 over larger pools " +
@@ -528,7 +536,13 @@ func main() {
 			"and symlinks hashed through absolute paths outside the root, next to regular files / relative links / directories with matching bytes: every stream against the model, every pair classified (non-trivial = a symlink path); " +
 			"(B) the same tree created in ascending/descending/shuffled order on /dev/shm and on disk must give one stream, trees whose contents are permuted relative to name order (same and other names) never one stream; " +
 			"(C) random operation sequences (write, remove, copy, Hash with/without recalc, MoveHash, CopyHash, SetHash right/wrong/absolute, build.moveOutput incl. rebuilding the same temporary path) on ONE long-lived hasher per sequence, " +
-			"4 in 5 kept inside the protocol: every returned stream, whether it was recomputed and the protocol tracker's verdict against the memo model (non-trivial = protocol followed throughout); oracle: inside the protocol the stream returned equals what a fresh hasher computes at that moment")
+			"4 in 5 kept inside the protocol: every returned stream, whether it was recomputed and the protocol tracker's verdict against the memo model (non-trivial = protocol followed throughout); oracle: inside the protocol the stream returned equals what a fresh hasher computes at that moment; " +
+			"follow-up 2: (D) histories of one checkout on a file system with user xattrs: new files, in-place edits (same inode), removals, mv (rename or hard link + unlink), cp -a (xattrs copied), directory entries and top-level paths that cannot be opened (sockets) and their repair, " +
+			"process restarts (a new PathHasher, xattrs on 4 in 5) and Hash with/without recalc/store on outputs under plz-out/ and on sources; random sequences (4 in 5 kept inside the protocol) plus directed ones " +
+			"(hash fails on an unreadable entry -> repaired -> hashed again by the same process; output hashed with store -> becomes a source via mv/link/cp -a -> edited in place -> hashed by a new process): every answer incl. the bytes written before a failure and the tracker's verdict against the Coq state machine; " +
+			"oracle: inside the protocol the answer equals what a fresh xattr-less hasher computes at that moment (non-trivial = protocol followed and >= 1 in-place edit, fault or restart); " +
+			"(E) 2-5 Hash calls on different paths at once through ONE PathHasher, every h.Write parked by the recording hash and released one at a time in a random order (the file Read of the next item runs before the next park): the recorded schedule and every call's bytes against the Coq interleaving model; " +
+			"oracle: every call's bytes and digest equal those of a sequential fresh hasher (non-trivial = >= 2 calls with different contents)")
 
 		base := "/dev/shm"
 		if st, err := os.Stat(base); err != nil || !st.IsDir() {
@@ -559,6 +573,13 @@ func main() {
 			VB       variant   `json:"vb"`
 			Ops      []mop     `json:"ops"`
 			Top      any       `json:"top"`
+			Rops     []rop     `json:"rops"`
+			Trees    []any     `json:"trees"`
+			Choices  []int     `json:"choices"`
+		}
+		if c.ReadReplay(&rp) && (rp.Kind == "rec" || rp.Kind == "conc") {
+			replayFollowup2(c, rp.Kind, rp.Rops, rp.Trees, rp.Choices)
+			return
 		}
 		if c.ReadReplay(&rp) && rp.Kind != "" {
 			if rp.Kind == "top1" { // a single top-level path (a correspondence case): replay it against itself
@@ -570,8 +591,8 @@ func main() {
 		if c.Replay != "" && rp.A != nil && rp.B != nil {
 			a, b := fromJS(rp.A), fromJS(rp.B)
 			sa, sb := realStream(a), realStream(b)
-			c.Case(lib.App("CStream", a.coq(nil), lib.Str(sa)), a.js(), a.key(), true)
-			c.Case(lib.App("CStream", b.coq(nil), lib.Str(sb)), b.js(), b.key(), true)
+			oldCase(c, lib.App("CStream", a.coq(nil), lib.Str(sa)), a.js(), a.key(), true)
+			oldCase(c, lib.App("CStream", b.coq(nil), lib.Str(sb)), b.js(), b.key(), true)
 			c.Oracle()
 			if a.key() != b.key() && sa == sb {
 				cls := classify(a, b, true)
@@ -593,7 +614,7 @@ func main() {
 			seen[k] = true
 			st := realStream(t)
 			pool = append(pool, item{t, st})
-			c.Case(lib.App("CStream", t.coq(shuffle), lib.Str(st)), map[string]any{"tree": t.js(), "stream": st}, k, t.Kind == 'd' && len(t.Names) > 0)
+			oldCase(c, lib.App("CStream", t.coq(shuffle), lib.Str(st)), map[string]any{"tree": t.js(), "stream": st}, k, t.Kind == 'd' && len(t.Names) > 0)
 			c.HistN("nodes", min(t.size(), 12))
 			c.HistN("depth", t.depth())
 			c.Hist("root_kind", string(t.Kind))
@@ -708,7 +729,7 @@ func main() {
 			c.Hist("collision_class", cls)
 			stride := max(1, classTotal[cls]/capCases)
 			if k := seenOfClass[cls]; cls != clsUnknown && k%stride == 0 && k/stride < capCases {
-				c.Case(lib.App("CClass", a.coq(nil), b.coq(nil), lib.Some(coqClass[cls])), map[string]any{"pair": pairJS(a, b), "class": cls},
+				oldCase(c, lib.App("CClass", a.coq(nil), b.coq(nil), lib.Some(coqClass[cls])), map[string]any{"pair": pairJS(a, b), "class": cls},
 					"p"+a.key()+b.key(), true)
 			}
 			seenOfClass[cls]++
@@ -734,7 +755,7 @@ func main() {
 				c.Hist("classified_but_distinct_streams", cls)
 				continue
 			}
-			c.Case(lib.App("CClass", a.coq(nil), b.coq(nil), "None"), map[string]any{"pair": pairJS(a, b), "class": nil}, "n"+a.key()+b.key(), false)
+			oldCase(c, lib.App("CClass", a.coq(nil), b.coq(nil), "None"), map[string]any{"pair": pairJS(a, b), "class": nil}, "n"+a.key()+b.key(), false)
 		}
 		// --- 6. follow-up streams: top-level symlinks with absolute targets, creation order, the memo
 		setupExt()
@@ -742,6 +763,13 @@ func main() {
 		runTops(c)
 		runOrder(c, add)
 		runMemo(c)
+		runRec(c)
+		runConc(c)
 		c.Exhaustive(true)
 	})
+}
+
+// oldCase records a case of the original case type (Model/C09.v) inside the follow-up-2 wrapper type
+func oldCase(c *lib.Ctx, coq string, js any, key string, nontrivial bool) {
+	c.Case("(COld "+coq+")", js, key, nontrivial)
 }
